@@ -206,7 +206,14 @@ Definition settings_maxf (cur : N) (kv : list (N * N)) : N :=
 Definition settings_tab (cur : N) (kv : list (N * N)) : N :=
   fold_left (fun m p => if N.eqb (fst p) 1 then snd p else m) kv cur.
 
-(* Checks made by the source Framer (ReadFrame returns an error). *)
+(* A SETTINGS entry the relay accepts: INITIAL_WINDOW_SIZE <= 2^31-1 (checked by the Framer) and
+   MAX_FRAME_SIZE within 2^14 .. 2^24-1 (checked by processFrame, repaired: fixes/C09-3; anything
+   else is a connection error PROTOCOL_ERROR and the reader stops). *)
+Definition setting_accept (p : N * N) : bool :=
+  (negb (N.eqb (fst p) 4) || N.leb (snd p) 2147483647)
+  && (negb (N.eqb (fst p) 5) || (N.leb 16384 (snd p) && N.leb (snd p) 16777215)).
+
+(* Checks made by the source Framer (ReadFrame returns an error) and by processFrame. *)
 Definition frame_ok (c : option pend) (fr : frame) : bool :=
   match c with
   | Some p => match fr with FCont s _ => N.eqb s (pend_sid p) | _ => false end
@@ -217,7 +224,7 @@ Definition frame_ok (c : option pend) (fr : frame) : bool :=
       | FHeaders s _ _ _ _ e0 => negb (N.eqb s 0) && negb e0
       | FData s _ _ _ | FPriority s _ | FRst s _ | FPush s _ _ _ => negb (N.eqb s 0)
       | FWinUpd _ inc => negb (N.eqb inc 0)
-      | FSettings kv => forallb (fun p => negb (N.eqb (fst p) 4) || N.leb (snd p) 2147483647) kv
+      | FSettings kv => forallb setting_accept kv
       | _ => true
       end
   end.
